@@ -1,6 +1,9 @@
 """Helpers for the time-specification checks (C07, C18).
 
-SI OP ndarray  element-wise like numpy's (installed at import, see _install_array_comparisons).
+SI/S OP ndarray  element-wise like numpy's (installed at import, see _install_array_comparisons).
+p_arange / time_np_overrides  NpProxy overrides: symbolic list indices / arange arguments are concretised
+          by the engine; round/floor/trunc/rint give symbolic ints (ties excluded) and put the defining
+          axioms of quotient variables on the live path condition.
 near_time a float time given *by construction* as  start + dt*(k + e),  |e| < 1/2:  its nearest
           step is k by arithmetic (no rounding code involved), and every non-tie real time has
           exactly one such decomposition -- the quantification is over all non-tie real times.
@@ -31,9 +34,8 @@ def _wrap_cmp(cls):
 
 
 def _install_array_comparisons():
-    """`SI OP ndarray`: vf.sym.SI raises TypeError (toi(ndarray)) and numpy defers to SI because of its
-    __array_priority__, so `ft_max > last_times` in the real bookkeeping code cannot run with a symbolic
-    `ft_max`.  The six comparison methods are wrapped here (run-time only, this process only) to do what
+    """`SI OP ndarray`: vf.sym.SI raises TypeError (toi(ndarray)) instead of leaving the comparison to
+    numpy, so `ft_max > last_times` in the real bookkeeping code cannot run with a symbolic `ft_max`.  The six comparison methods are wrapped here (run-time only, this process only) to do what
     numpy's element-wise loop does for `int OP array`: a bool array holding the truth value of every
     element comparison (a symbolic element forks the path).  Suggested for vf/sym.py itself."""
     if getattr(SI, "_vf_array_cmp", False):
@@ -44,10 +46,9 @@ def _install_array_comparisons():
 
 
 def _install_reflected_array_ops():
-    """`ndarray OP S` (e.g. `control_times - start_time`, `... / dt` in Control.get_controls): numpy defers
-    to S because of its __array_priority__, and S's reflected operators do not accept arrays.  They are
-    wrapped here (run-time only) to broadcast element-wise like numpy does for a Python scalar.
-    Suggested for vf/sym.py itself."""
+    """`ndarray OP S` (e.g. `control_times - start_time`, `... / dt` in Control.get_controls): whenever numpy
+    hands the whole array to S's reflected operator (it did while S carried an __array_priority__), the
+    operation is broadcast element-wise like numpy does for a Python scalar.  Run-time only."""
     if getattr(S, "_vf_array_rops", False):
         return
     import operator
